@@ -97,9 +97,9 @@ static double vmap(int m, int r, double plain) {
     }
 }
 
-static void run_sort(Ctx& ctx) {
-    // every weak order of n <= 6 elements = every sequence over {0..n-1} whose value set is {0..k-1}
-    for (int n = 1; n <= 6; ++n) {
+static void run_sort(Ctx& ctx, bool T) {
+    // every weak order of n <= 6 (thorough 8) elements = every sequence over {0..n-1} whose value set is {0..k-1}
+    for (int n = 1; n <= (T ? 8 : 6); ++n) {
         std::vector<int> s((size_t)n, 0);
         while (true) {
             unsigned mask = 0;
@@ -118,8 +118,8 @@ static void run_sort(Ctx& ctx) {
             ++s[(size_t)p];
         }
     }
-    // every permutation for n <= 8
-    for (int n = 2; n <= 8; ++n) {
+    // every permutation for n <= 8 (thorough 10); both directions, so every already-sorted input is also sorted the other way
+    for (int n = 2; n <= (T ? 10 : 8); ++n) {
         std::vector<int> p((size_t)n);
         for (int i = 0; i < n; ++i) p[(size_t)i] = i;
         do {
@@ -159,6 +159,15 @@ static void run_sort(Ctx& ctx) {
           }
         }
     }
+    // big arrays (beyond 65536 elements) with closed-form letters, both directions
+    const char* bigl[] = {"reversed-ramp", "two-valued", "rotated-ramp", "ramp"};
+    for (int n : {70000, 200000})
+        for (int l = 0; l < 4; ++l) {
+            if (!ctx.take("sort.big", P().kv("n", n).kv("letter", bigl[l]))) continue;
+            std::vector<double> v((size_t)n);
+            for (int i = 0; i < n; ++i) v[(size_t)i] = l == 0 ? (n - i) * 0.5 : (l == 1 ? (double)((i / 7) % 2) : (l == 2 ? (double)((i + n / 3) % n) : i - 100.0));
+            check_sort_family(ctx, v);
+        }
 }
 
 // ---------------------------------------------------------------------------------------------- MedianFilter / medfilt
@@ -223,7 +232,7 @@ static void run_medfilt(Ctx& ctx, bool T) {
         orders.push_back(64);
     }
     const double inits[] = {0, -1, 5};
-    const int K = T ? 8 : 6;
+    const int K = T ? 10 : 6;
     // every sequence over {0,1,2}^k: all tie patterns (also ties with the initial history 0)
     for (int order : orders)
         for (double init : inits)
@@ -242,6 +251,30 @@ static void run_medfilt(Ctx& ctx, bool T) {
                     }
                     int p = k - 1;
                     while (p >= 0 && s[(size_t)p] == 2) s[(size_t)p--] = 0;
+                    if (p < 0) break;
+                    ++s[(size_t)p];
+                }
+            }
+    // every sequence over {0,1,2,3}^k, k <= 4 (thorough 8)
+    for (int order : orders)
+        for (double init : inits)
+            for (int k = 1; k <= (T ? 8 : 4); ++k) {
+                std::vector<int> s((size_t)k, 0);
+                const auto frs = framings3(k);
+                while (true) {
+                    for (int m = 0; m < NMAP; ++m)
+                        if (ctx.take("medfilt.quaternary", P().kv("order", order).kv("init", (int)init).kv("seq", digits(s)).kv("map", MAPN[m]))) {
+                            std::vector<double> x;
+                            int nz = 0;
+                            for (int r : s) {
+                                x.push_back(vmap(m, r, r));
+                                nz += r != 0;
+                            }
+                            if (nz >= 2) ctx.nontrivial();
+                            check_medstream(ctx, order, init, x, frs);
+                        }
+                    int p = k - 1;
+                    while (p >= 0 && s[(size_t)p] == 3) s[(size_t)p--] = 0;
                     if (p < 0) break;
                     ++s[(size_t)p];
                 }
@@ -303,7 +336,7 @@ static void run_medfilt(Ctx& ctx, bool T) {
     }
     // medfilt(x, n): centred window (x[j-n/2 .. j+n-1-n/2], zeros outside), n in 3..9, |x| in 1..12
     {
-        const int KX = T ? 7 : 6;
+        const int KX = T ? 8 : 6, NX = T ? 12 : 9;
         auto one = [&](int n, const std::vector<double>& x) {
             const int L = (int)x.size();
             arr_real xa = mk(x);
@@ -330,8 +363,8 @@ static void run_medfilt(Ctx& ctx, bool T) {
             ctx.note(n % 2 ? "medfilt odd n" : "medfilt even n");
         };
         const double alpha[3] = {-1, 0, 2};
-        for (int n = 3; n <= 9; ++n) {
-            for (int L = 1; L <= KX; ++L) {
+        for (int n = 3; n <= 12; ++n) {
+            for (int L = 1; L <= (n <= NX ? KX : 0); ++L) {
                 std::vector<int> s((size_t)L, 0);
                 while (true) {
                     for (int m = 0; m < NMAP; ++m)
@@ -351,7 +384,7 @@ static void run_medfilt(Ctx& ctx, bool T) {
                     ++s[(size_t)p];
                 }
             }
-            for (int L = 1; L <= 12; ++L)
+            for (int L = 1; L <= 24; ++L)   // every (n, length) pair of 3..12 x 1..24 (includes lengths below n/2)
                 for (int l = 0; l < 7; ++l)
                   for (int m = 0; m < NMAP; ++m) {
                     if (!ctx.take("medfilt.func.letters", P().kv("n", n).kv("len", L).kv("letter", l).kv("map", MAPN[m]))) continue;
@@ -364,13 +397,35 @@ static void run_medfilt(Ctx& ctx, bool T) {
                         case 3: x[(size_t)i] = L - i; break;
                         default: x[(size_t)i] = std::floor(lcg_val(1620 + (uint64_t)l, (uint64_t)i) * 4); break;
                         }
-                        // all letters take integer values in [-12, 12]: rank = value + 12
-                        x[(size_t)i] = vmap(m, (int)x[(size_t)i] + 12, x[(size_t)i]);
+                        // all letters take integer values in [-24, 24]: rank = value + 24
+                        x[(size_t)i] = vmap(m, (int)x[(size_t)i] + 24, x[(size_t)i]);
                     }
                     if (L >= 2) ctx.nontrivial();
                     one(n, x);
                 }
         }
+        // big records (beyond 65536 samples), closed-form letters
+        auto bigletter = [](int l, int N) {
+            std::vector<double> x((size_t)N);
+            for (int i = 0; i < N; ++i) x[(size_t)i] = l == 0 ? (double)(N - i) : (l == 1 ? (double)((i / 7) % 2) : (double)((i + N / 3) % N));
+            return x;
+        };
+        const char* bigl[] = {"reversed-ramp", "two-valued", "rotated-ramp"};
+        for (int N : {70000, 200000})
+            for (int l = 0; l < 3; ++l) {
+                for (int n : {3, 8}) {
+                    if (!ctx.take("medfilt.big", P().kv("what", "medfilt").kv("n", n).kv("len", N).kv("letter", bigl[l]))) continue;
+                    ctx.nontrivial();
+                    one(n, bigletter(l, N));
+                }
+                for (int order : {5, 16, 33}) {
+                    if (!ctx.take("medfilt.big", P().kv("what", "MedianFilter").kv("n", order).kv("len", N).kv("letter", bigl[l]))) continue;
+                    ctx.nontrivial();
+                    std::vector<int> blocks;
+                    for (int left = N; left > 0; left -= 65537) blocks.push_back(std::min(left, 65537));
+                    check_medstream(ctx, order, 0.0, bigletter(l, N), {{N}, blocks});
+                }
+            }
     }
 }
 
@@ -664,15 +719,20 @@ static std::vector<int> ranks_fast(const std::vector<double>& v) {   // tie-free
 // x is a fixed pseudo-random permutation mapped linearly (tie-free by construction); y is a strictly increasing /
 // decreasing, linear / nonlinear function of x, or an independent permutation.
 static void run_corr_large(Ctx& ctx, bool T) {
-    std::vector<int> lens = {100, 1000, 1290, 1291, 1625, 2000, 2048, 5000, 20000};
-    if (T) lens.push_back(100000);
+    std::vector<int> lens = {100, 1000, 1290, 1291, 1625, 2000, 2048, 5000, 20000, 70000, 200000};
+    if (T) {
+        lens.push_back(65537);
+        lens.push_back(100000);
+        lens.push_back(1000003);
+    }
     const char* REL[6] = {"increasing-linear", "decreasing-linear", "increasing-cubic", "decreasing-exp", "permutation-pair-a", "permutation-pair-b"};
     const char* TYN[3] = {"pearson", "spearman", "kendall"};
     const Correlation TYS[3] = {Correlation::Pearson, Correlation::Spearman, Correlation::Kendall};
     for (int n : lens)
         for (int rel = 0; rel < 6; ++rel)
             for (int ty = 0; ty < 3; ++ty) {
-                // Kendall's pair loop is O(n^2) with int pair counters: n(n-1)/2 exceeds INT_MAX beyond n = 65536 (outside the stated lengths)
+                // Kendall's pair loop is O(n^2) (seconds per call beyond n = 50000): in this grid only up to n = 20000, the lengths
+                // beyond 65536 (pair counts above 2^31) are covered by corr.kendall.big with a small number of calls
                 if (ty == 2 && n > 20000) continue;
                 if (!ctx.take("corr.large", P().kv("n", n).kv("relation", REL[rel]).kv("type", TYN[ty]))) continue;
                 ctx.nontrivial();
@@ -681,7 +741,8 @@ static void run_corr_large(Ctx& ctx, bool T) {
                 std::vector<int> py;
                 if (rel >= 4) py = lcg_perm(1660 + (uint64_t)rel, n);
                 for (int i = 0; i < n; ++i) {
-                    const double xv = 0.001 * px[(size_t)i] - 3.7;
+                    // spacing 0.001 up to n = 200000; beyond that the range is kept at 200 so that exp(-x) does not underflow
+                    const double xv = (n <= 200000 ? 0.001 * px[(size_t)i] : px[(size_t)i] * (200.0 / n)) - 3.7;
                     x[(size_t)i] = xv;
                     switch (rel) {
                     case 0: y[(size_t)i] = 2 * xv + 1; break;
@@ -725,6 +786,10 @@ static void run_corr_large(Ctx& ctx, bool T) {
                     const long long inv = inversions(sq, tmp, 0, (size_t)n), pairs = (long long)n * (n - 1) / 2;
                     ref = (ld)(pairs - 2 * inv) / (ld)pairs;
                     tol = 8 * EPS;
+                    if (n <= 2000 && kendall_ref(x, y) != ref) {   // oracle self-check: O(n log n) inversion count against the O(n^2) definition
+                        fprintf(stderr, "oracle self-check failed: Kendall inversion count at n=%d\n", n);
+                        std::exit(4);
+                    }
                 }
                 const double err = std::fabs((double)((ld)got - ref));
                 if (err <= tol) ctx.worst(std::string("corr.large ") + TYN[ty] + " |err|/tol (passing cases)", err / tol);
@@ -737,14 +802,87 @@ static void run_corr_large(Ctx& ctx, bool T) {
             }
 }
 
+// thorough tier, even length 8: identity, reversal and every 63rd permutation (641 x-permutations) against all 40320
+// y-permutations, all three coefficients
+static void run_corr_n8(Ctx& ctx) {
+    const std::vector<CorrKind> kinds = {{"corr.pearson.n8", Correlation::Pearson, 0, 2}, {"corr.spearman.n8", Correlation::Spearman, 0, 1}, {"corr.kendall.n8", Correlation::Kendall, 0, 1}};
+    const int n = 8;
+    std::vector<int> px((size_t)n);
+    for (int i = 0; i < n; ++i) px[(size_t)i] = i;
+    long long ord = 0;
+    do {
+        const bool sel = (ord % 63 == 0) || ord == 40319;
+        ++ord;
+        if (!sel) continue;
+        for (const CorrKind& ck : kinds) {
+            if (!ctx.take(ck.check, P().kv("n", n).kv("x", digits(px)).kv("fx", LETTER_NAME[ck.fx]).kv("fy", LETTER_NAME[ck.fy]))) continue;
+            ctx.nontrivial();
+            CorrBlock blk;
+            std::vector<int> py((size_t)n);
+            for (int i = 0; i < n; ++i) py[(size_t)i] = i;
+            long long pairs = 0;
+            do {
+                corr_pair(ctx, ck, px, py, blk);
+                ++pairs;
+            } while (std::next_permutation(py.begin(), py.end()));
+            ctx.note(std::string(ck.check) + " pairs evaluated (each in both argument orders)", pairs);
+            corr_block_report(ctx, blk);
+        }
+    } while (std::next_permutation(px.begin(), px.end()));
+}
+
+// Kendall's tau beyond 65536 elements: the number of pairs n(n-1)/2 exceeds 2^31.  The library's pair loop is O(n^2)
+// (a few seconds per call), so only a handful of calls, one case per shard.  Reference: merge-sort inversion count in
+// 64-bit integers (cross-checked against the O(n^2) definition for n <= 2000 in corr.large).
+static void run_kendall_big(Ctx& ctx, bool T) {
+    struct Case {
+        int n;
+        int letter;   // 0: x[i] = i, y[i] = (7919*i) mod n (a permutation: 7919 is prime and does not divide n); 1: strictly decreasing
+        bool both;    // also the swapped call (symmetry)
+    };
+    std::vector<Case> cases = {{65537, 0, true}, {65537, 1, true}, {70000, 0, false}, {70000, 1, false}};
+    if (T) {
+        cases.push_back({70000, 0, true});
+        cases.push_back({100000, 0, true});
+        cases.push_back({100000, 1, false});
+        cases.push_back({200000, 0, false});
+    }
+    const char* LN[2] = {"x=i,y=7919*i mod n", "strictly decreasing"};
+    for (const Case& c : cases) {
+        if (!ctx.take("corr.kendall.big", P().kv("n", c.n).kv("letter", LN[c.letter]).kv("both_orders", c.both))) continue;
+        ctx.nontrivial();
+        const int n = c.n;
+        std::vector<double> x((size_t)n), y((size_t)n);
+        for (int i = 0; i < n; ++i) {
+            x[(size_t)i] = i;
+            y[(size_t)i] = c.letter == 0 ? (double)((7919LL * i) % n) : -0.5 * i + 3;
+        }
+        std::vector<double> sq = y, tmp((size_t)n);   // x is already increasing: inversions of y
+        const long long inv = inversions(sq, tmp, 0, (size_t)n), pairs = (long long)n * (n - 1) / 2;
+        const ld ref = (ld)(pairs - 2 * inv) / (ld)pairs;
+        const arr_real ax = mk(x), ay = mk(y);
+        const double got = dsplib::corr(ax, ay, Correlation::Kendall);
+        const double err = std::fabs((double)((ld)got - ref));
+        ctx.worst("corr.kendall.big |err| (limit 8 eps)", std::isfinite(err) ? err : 1e300);
+        if (!(err <= 8 * EPS)) ctx.fail("corr", fmt("corr(x,y,Kendall)=%.17g (n=%d, %lld pairs)", got, n, pairs), fmt("%.17Lg", ref), P().kv("what", "value"));
+        if (!(std::fabs(got) <= 1 + 4 * EPS)) ctx.fail("corr", fmt("corr=%.17g", got), "in [-1,1]", P().kv("what", "range"));
+        if (c.both) {
+            const double swp = dsplib::corr(ay, ax, Correlation::Kendall);
+            if (!(std::fabs(got - swp) <= 1e-12)) ctx.fail("corr", fmt("corr(x,y)=%.17g corr(y,x)=%.17g (n=%d)", got, swp, n), "|difference| <= 1e-12", P().kv("what", "symmetry"));
+        }
+    }
+}
+
 int main(int argc, char** argv) {
     Ctx ctx;
     ctx.parse(argc, argv, "C16");
     const bool T = ctx.thorough();
-    run_sort(ctx);
+    run_sort(ctx, T);
     run_medfilt(ctx, T);
     run_corr(ctx, T);
     run_corr_large(ctx, T);
+    run_kendall_big(ctx, T);
     if (T) run_corr_n7(ctx);
+    if (T) run_corr_n8(ctx);
     return ctx.finish();
 }
